@@ -29,6 +29,15 @@ CHECKS["C14"] = dict(text="Lean theorems over every well-timed history of the op
 CHECKS["C01"] = dict(text="the Lean world model (kernel + queues + sockets + resolver + capture) is a pure function of the scenario with no environment input; theorems state that the kernel has no scheduling choice points (FIFO, expiry-then-arming order), that a new simulation's clock is reset, and that the capture does not depend on allocator contents once the byte counters are initialised (with the pinned tree's dependence as a witness); every generated program is executed by the real library under several perturbed environments (allocator fill 0x00/0xbe/0x55, sanitizer vs -O2 build, tcache off, ASLR off, another simulation run first in the same process) and every complete trace, capture bytes included, must equal the environment-free prediction byte for byte",
     note=TB + "PARTIAL by nature: Lean proves the identified environment inputs do not reach the model's observables; dependences not identified by reading (inside boost, pointer comparisons in unmodelled paths) can only be exhibited by the perturbed runs, which sample", ref="§5 C01",
     tech="Lean 4 proof (determinism of the model, non-interference of identified environment inputs) + exact model/implementation correspondence under perturbed environments")
+CHECKS["C11"] = dict(text="Lean theorems over every label sequence of the open registry system (26 labels: new/open/bind/close/destroy/move/send_to-implicit-bind on UDP sockets, new/open/bind/close/destroy/move/connect-implicit-bind/listen/accept-attach on TCP sockets and acceptors, plus an arbitrary-TCP-data-path label): exclusivity, registry = set of open bound non-accepted sockets (both directions), one owner per endpoint, complete bind decision table (closed, family, already bound, wildcard resolution to the FIRST address of the family, foreign address, privileged port, in use, ok, ephemeral) with totality, ephemeral port free and in [2000,65534], TCP/UDP independence (only the counter is shared), release on close/destroy/re-open with immediate re-bind, move transfers, closing an accepted socket keeps the acceptor's entry, no stale delivery (routes end in the CURRENT forwarder of the entry's holder; detached forwarders swallow); exact correspondence + reference-registry monitor on implementation traces",
+    note=TB + "node addresses are never the wildcard (assert in bind_socket); counter wrap 65534->2000 tracked but not exercised by generators", ref="§5b C11",
+    tech="Lean 4 proof: invariant over all histories of the open registry system; model/implementation correspondence")
+CHECKS["C08"] = dict(text="Lean theorems over every history of UDP sockets in the same open system: receive-buffer account = sum of queued payloads (the invariant the truncation defect broke; as-is starvation witness), FIFO hand-out, at most once, payload = oldest datagram cut to the buffers with the rest discarded, exactly one datagram per call, a parked reader implies an empty queue (no lost wake-up), a drained reader accepts every datagram that fits, complete send_to decision table (empty, > 65535, DF over MTU reported sent and not forwarded, pacing full, no binding, else exactly one packet with the sender's endpoint on the route ending in the destination holder's current forwarder), close discards and detaches for ever, right-socket (forwarder identity); exact correspondence + monitor (at most once, intact, right socket, order, sender endpoint through NAT, nothing after close, loss only for a stated reason) on implementation traces",
+    note=TB + "tail-drop reasons are judged conservatively by the monitor (loss is flagged only when every queue on the route is unlimited and the reader was parked on an empty queue)", ref="§5b C08",
+    tech="Lean 4 proof: invariant over all histories incl. ghost delivery logs; model/implementation correspondence")
+CHECKS["C06"] = dict(text="PARTIAL by nature (liveness is not proved). Lean theorems over every label sequence of the open sender system (writes with any layout, ACKs, hand-backs of dropped segments at ANY point incl. synchronously inside the segmentation and retransmission loops, SYN-ACK) and of the open receiver system (arbitrary arrivals, reads, wait-for-read): window floor mss <= cwnd; in-flight account = sum of outstanding sizes with keys = segments in the network or awaiting ACK; a parked writer implies window full or handshake unfinished or retransmissions pending, hence with nothing to retransmit something is outstanding; after every ACK a writer that fits has been re-run; retransmissions keep their drop callback; a pending read implies an empty incoming queue; connects to an acceptor with an accept outstanding complete; tail-drop with capacity >= packet implies a non-empty queue; as-is witnesses for the four repaired defects. Check: bulk transfers through 1-3 queue hops each way must complete, exactly as the world model predicts",
+    note=TB + "the concrete window policy is modelled, so a harmless policy change breaks this correspondence; `C06_no_orphan_resend` (composition of the sender with the route's queues under the statement's side conditions) and `quiescent => delivered = written` are not proved, only checked on generated transfers", ref="§5b C06",
+    tech="Lean 4 proof: quiescence-safety invariants of the open sender/receiver systems; model/implementation correspondence")
 CHECKS["C10"] = dict(text="Lean theorems: byte account = sum of queued sizes = accepted - forwarded; drop iff droppable and capacity>0 and held+size>capacity (mechanism function and logged flag for every arrival of every history); control packets and capacity 0 never drop; conservation (every arrival forwarded xor dropped xor still queued, FIFO identity); drop callback exactly once, at the drop instant, with the packet intact; correspondence and trace-level statement as C09",
     note=TB + "'intact' covers payload size/type/sequence/overhead (the callback member itself is moved out by design)", ref="§5 C10",
     tech="Lean 4 proof: open-system invariant; model/implementation correspondence")
